@@ -115,10 +115,25 @@ def main():
     results = []
     if jobs:
         nproc = min(len(jobs), max(1, (os.cpu_count() or 4)))
+        import concurrent.futures as cf
         ctx = multiprocessing.get_context('fork')
-        with ctx.Pool(nproc) as pool:
-            for r in pool.imap_unordered(_worker, jobs):
-                results.append(r)
+        budget = 3600 if tier == 'quick' else 6 * 3600
+        with cf.ProcessPoolExecutor(max_workers=nproc, mp_context=ctx) as pool:
+            futs = {pool.submit(_worker, j): j for j in jobs}
+            try:
+                for fut in cf.as_completed(futs, timeout=budget):
+                    j = futs[fut]
+                    try:
+                        results.append(fut.result())
+                    except Exception as e:      # noqa  (a worker died: checker problem, never a verdict)
+                        results.append({'key': j[1], 'kind': j[0], 'obligations': {}, 'info': {}, 'unsupported': None,
+                                        'error': 'worker failed: %s: %s' % (type(e).__name__, e)})
+            except cf.TimeoutError:
+                for fut, j in futs.items():
+                    if not fut.done():
+                        results.append({'key': j[1], 'kind': j[0], 'obligations': {}, 'info': {}, 'unsupported': None,
+                                        'error': 'worker timed out after %ds' % budget})
+                        fut.cancel()
     results.sort(key=lambda r: r['key'])
 
     # ---- collect obligations ---------------------------------------------------------------------------
@@ -257,6 +272,31 @@ def main():
                               f, indent=1, default=str)
                 violations.append('VIOLATION property=%s replay=%s obligation=%s verdict=bounded-counterexample'
                                   % (prop, os.path.relpath(rfile, OUT), oid))
+    # ---- thorough tier: CPython cross-check of the proved value contracts (translation validation of the encoder) ------
+    crosscheck = []
+    if tier == 'thorough':
+        for r in results:
+            key = r['key']
+            c = REG.contracts.get(key)
+            if r['kind'] != 'target' or c is None or c.get('bounded') or c.get('default_callee') == 'opaque':
+                continue
+            if not any(isinstance(e, str) for e in c['ensures']):
+                continue
+            try:
+                p = subprocess.run([VENV_PY, '-m', 'pyvc.fuzz', ','.join(modules), key, '--n', '3000', '--seconds', '15',
+                                    '--seed', str(seed)], env=env, cwd=VERIF, capture_output=True, text=True, timeout=300)
+                fz = json.loads(p.stdout)
+            except Exception as e:      # noqa
+                fz = {'errors': [str(e)], 'failures': [], 'tried': 0, 'accepted': 0}
+            rec = {'function': key, 'tried': fz.get('tried'), 'accepted': fz.get('accepted'),
+                   'failures': len(fz.get('failures', [])), 'errors': (fz.get('errors') or [])[:2]}
+            crosscheck.append(rec)
+            if fz.get('failures'):
+                # the contract is proved but a generated input violates it on the real code: encoder/contract
+                # disagreement (or float noise) -- a checker problem to look at, not a property violation
+                print('CROSSCHECK-NOTE target=%s clause=%s (proved over reals / outside a known finding; see replays)' % (key, fz['failures'][0]['clause'][:120]))
+                with open(os.path.join(rdir, 'crosscheck-%s.json' % key.split(':')[1]), 'w') as f:
+                    json.dump(fz['failures'][0], f, indent=1, default=str)
     n_obl = len(obligations)
     n_dis = sum(1 for o in obligations.values() if o['verdict'] in ('unsat', 'known'))
     n_known = sum(1 for o in obligations.values() if o['verdict'] == 'known')
@@ -287,6 +327,7 @@ def main():
                         'must_fail_refuted': sum(1 for o in obligations.values() if o['kind'] == 'must_fail' and o['verdict'] == 'unsat')},
             'traces_validated_against_impl': n_replayed,
             'bounded': bounded,
+            'crosscheck_against_cpython': crosscheck,
             'dropped_constructs': sorted(dropped),
             'degraded': degraded, 'unsupported_targets': [{'target': k, 'reason': m} for k, m in unsupported],
             'unverified_remainder': list(getattr(contracts, 'NOT_COVERED', {}).get(prop, [])),
